@@ -384,7 +384,11 @@ func (lc *localizer) localizeFileWithContent(path string, content []byte) (strin
 		// 2. avoid paths that temporarily traverse outside the current root,
 		//    i.e. ../../../scope/target/current-root. The localized file will be surrounded by
 		//    different directories than its source, and so an uncleaned path may no longer be valid.
-		locPath = cleanedRelativePath(lc.fSys, lc.root, path)
+		var err error
+		locPath, err = cleanedRelativePathOrError(lc.fSys, lc.root, path)
+		if err != nil {
+			return "", errors.WrapPrefixf(err, "unable to localize file %q", path)
+		}
 	}
 	absPath := filepath.Join(lc.dst, locPath)
 	if err := lc.fSys.MkdirAll(filepath.Dir(absPath)); err != nil {
